@@ -218,7 +218,42 @@ def handle_violations(H, ex):
         H.report(viol.label, case, reproduced, detail)
 
 
+def confirm_source(H, label, case):
+    """A skeleton violation, natively and end to end: the compiled pipeline (tokenize, parse,
+    type_check, evaluate) on the source text with the literals of the counterexample, against the
+    big-step reference run on the term as PARSED."""
+    replay = H.get_replay()
+    src = case["source"]
+    for k, v in sorted(case["literals"].items(), key=lambda kv: -len(kv[0])):
+        src = src.replace(k, v if not v.startswith("-") else "(0 - %s)" % v[1:])
+    r = replay.call({"op": "pipeline", "source": src, "run": True, "limit": 200000})
+    if r.get("stage") != "done":
+        return False, "the front end rejects %r: %s" % (src, str(r.get("err"))[:200])
+    run = r.get("run") or {}
+    if run.get("exhausted"):
+        return False, "evaluation of %r did not finish" % src
+    cx = ConcreteCtx()
+    bs = BigStep(cx, None, fuel=200000)
+    try:
+        ref = bs.eval(T.from_json(r["parsed"], {k: None for k in r.get("cells", {})}, {}), [])
+        rg = bs.ground(ref)
+    except Stuck:
+        rg = ("stuck",)
+    except OutOfFuel:
+        return False, "reference out of fuel"
+    if not run.get("is_value"):
+        got = ("stuck",)
+    else:
+        v = run["term"]
+        got = ("lit", int(v["value"])) if v["v"] == "IntegerLiteral" else ("ctor", v["v"])
+    want = rg if rg[0] != "lit" else ("lit", int(str(rg[1])))
+    return (got != want), "`gram run` on %r gives %s (elaborated: %s); the semantics of the program as written prescribes %s" % (
+        src, run.get("shown"), r.get("term_shown"), want)
+
+
 def confirm(H, label, case):
+    if label.startswith("E") and "literals" in case:
+        return confirm_source(H, label, case)
     if label.startswith("E"):
         return confirm_evaluate(H, label, case)
     label = label.split(" ")[0]
@@ -369,6 +404,8 @@ SKELETONS = [
     ("recursion-then-later-sibling", "f : (int -> int) = n => if n <= 9001 then k else f (n - 9002)\nk = 9003\nf 9004", {9004: (0, 3), 9002: (1, 1), 9001: (0, 0)}),
     ("recursion-calls-later-function", "f : (int -> int) = n => if n == 9001 then 9002 else if n == 9003 then g 9004 else f (n - 9005)\ng : (int -> int) = m => m + 9006\nf 9007",
      {9007: (0, 3), 9005: (1, 1), 9001: (0, 0), 9003: (1, 1)}),
+    ("geq-boundary", "m = (a : int) => (b : int) => if a >= b then 9001 else 9002\nm 9003 (9004 + 9005)", {}),
+    ("every-comparison", "c = (a : int) => (b : int) => (if a < b then 1 else 0) + (if a <= b then 2 else 0) + (if a == b then 4 else 0) + (if a > b then 8 else 0) + (if a >= b then 16 else 0)\nc 9001 9002", {}),
     ("forward-function-reference", "a : (int -> int) = (n : int) => b (n + 9001)\nb : (int -> int) = (n : int) => n * 9002\na 9003", {}),
 ]
 
@@ -429,6 +466,12 @@ def skeleton_inputs(H):
         yield name, src, (lambda sj=sj, syms=syms: build_symbolic(sj, syms, {}, {})), syms, assumptions, (lambda m, sj=sj, syms=syms, name=name: {"t": instantiate(sj, m, syms), "skeleton": name})
 
 
+def cells_for_source(cells, syms):
+    """Hole contents for the parsed term: omitted annotations are holes the checker solved; the
+    big-step reference never looks inside an annotation, so leaving them unsolved is fine."""
+    return {k: None for k in cells}
+
+
 def run_skeletons(H, quick):
     if H.worker:
         return
@@ -440,6 +483,10 @@ def run_skeletons(H, quick):
             continue
         syms, assumptions = {}, []
         sj = symbolize(r["term"], syms, ranges, assumptions)
+        # the SOURCE program as parsed (before elaboration): what the semantics prescribes is the
+        # value of this term; `gram run` evaluates the elaborated one (S-C02-03: an elaboration that
+        # silently changes an operator)
+        pj = symbolize(r["parsed"], syms, ranges, assumptions) if r.get("parsed") else None
         cells = {k: symbolize(v, syms, ranges, assumptions) if v is not None else None for k, v in r["cells"].items()}
         ex, it = H.engine(assumptions=assumptions, solver_timeout_ms=120000)
         ex.fuel = 200000
@@ -449,7 +496,8 @@ def run_skeletons(H, quick):
             it.call_depth = 0
             cell_objs = {}
             tv = build_symbolic(sj, syms, {}, cell_objs)
-            info = lambda m: {"t": instantiate(sj, m, syms), "skeleton": name}
+            info = lambda m: {"t": instantiate(sj, m, syms), "skeleton": name, "source": src,
+                              "literals": {str(k): str(T.mval(m, v)) for k, v in syms.items()}}
             try:
                 res = it.resolve(it.call("evaluator", "evaluate", [tv]))
             except FuelExhausted:
@@ -457,7 +505,13 @@ def run_skeletons(H, quick):
                 return
             bs = BigStep(ex, None, fuel=20000)
             try:
-                ref = bs.eval(tv, [])
+                src_term = tv
+                if pj is not None:
+                    try:
+                        src_term = build_symbolic(pj, syms, cells_for_source(cells, syms), {})
+                    except Exception:
+                        src_term = tv
+                ref = bs.eval(src_term, [])
                 ref_kind = "value"
             except Stuck:
                 ref, ref_kind = None, "stuck"
